@@ -254,7 +254,7 @@ func streams(r *rng, tier string) {
 	// 3. long sequences, up to 200 elements: a word and an edited copy, and unrelated words
 	nLong := 300
 	if thorough {
-		nLong = 4000
+		nLong = 8000
 	}
 	for i := 0; i < nLong; i++ {
 		n := 1 + r.below(200)
@@ -278,7 +278,7 @@ func streams(r *rng, tier string) {
 	//    unrelated values, and the same value twice
 	nNested := 6000
 	if thorough {
-		nNested = 80000
+		nNested = 250000
 	}
 	for i := 0; i < nNested; i++ {
 		h := 2 + r.below(3)
@@ -303,7 +303,7 @@ func streams(r *rng, tier string) {
 	// 5. the depth limit: small depths against values of height 1..5
 	nDepth := 1500
 	if thorough {
-		nDepth = 15000
+		nDepth = 40000
 	}
 	for i := 0; i < nDepth; i++ {
 		h := 1 + r.below(5)
@@ -314,7 +314,7 @@ func streams(r *rng, tier string) {
 	// 6. the restart path of compose: a small routeSize, unequal sequences of any kind
 	nRestart := 3000
 	if thorough {
-		nRestart = 40000
+		nRestart = 120000
 	}
 	sizes := []int{1, 2, 3, 4, 5, 8, 13, 30}
 	for i := 0; i < nRestart; i++ {
@@ -366,7 +366,7 @@ func envStream(r *rng, thorough bool) {
 	keys := dawn_keys()
 	n := 3000
 	if thorough {
-		n = 40000
+		n = 100000
 	}
 	for i := 0; i < n; i++ {
 		old := starlark.NewDict(0)
@@ -410,6 +410,10 @@ func envStream(r *rng, thorough bool) {
 		case c < 8:
 			nn = starlark.String("x")
 		}
-		envCase(o, nn)
+		envCase(o, nn, false)
+		if i%10 == 0 && o != starlark.None {
+			// the same environment decoded twice from one encoding
+			envCase(o, clone(o), true)
+		}
 	}
 }
